@@ -29,7 +29,7 @@ def _norm(e) -> str:
 
 def run(chk, repo: Repo):
     chk.rule("C19-R1", "indices and reductions on self.samples use the last axis, unless the method first requires vector form", floor=10)
-    chk.rule("C19-R2", "burnthin: refusal, copy(self) with samples rebound to [..., Nb::Nt], all members of a joint set", floor=2)
+    chk.rule("C19-R2", "burnthin: refusal, copy(self) with samples rebound to [..., Nb::Nt] on EVERY accepted path (no shortcut hands out the source itself), all members of a joint set", floor=2)
     chk.rule("C19-R3", "mean/median/variance/std are the NumPy reductions over axis -1; interval bounds ordered; width = upper - lower of compute_ci(percent) "
                        "(the requested level is passed on to the interval the width is computed from)", floor=6)
     chk.rule("C19-R4", "variables zipped with rows in index order; chains stacked on their own axis by index", floor=3)
